@@ -41,7 +41,9 @@ inline void svprintscripts(std::vector<std::string>& l, int& lmax, std::vector<C
         std::string header = "<<< taproot commitment >>>";
         if (header.length() > lmax) lmax = header.length();
         l.push_back(header);
-        for (const auto& s : desc) {
+        // one line per step of Iterate(): only the steps that are still to come
+        for (size_t k = tce->m_i; k < desc.size(); ++k) {
+            const auto& s = desc[k];
             if (s.length() > lmax) lmax = s.length();
             l.push_back(s);
         }
